@@ -1,6 +1,7 @@
 package rules
 
 import (
+	"go/types"
 	"go/token"
 	"strings"
 
@@ -334,6 +335,24 @@ func checkC08(c *Ctx) {
 
 // inductionPlusOne recognises v = phi(0, v') + 1 with v' == v on every back edge.
 func inductionPlusOne(v ssa.Value) (ok bool, why string) {
+	// the loop variable itself: for id := k; ; id++  =>  phi(k, phi+1)
+	if phi, isPhi := v.(*ssa.Phi); isPhi && len(phi.Edges) == 2 {
+		sawConst, sawInc := false, false
+		for _, e := range phi.Edges {
+			if _, isC := e.(*ssa.Const); isC {
+				sawConst = true
+				continue
+			}
+			if bo, isB := e.(*ssa.BinOp); isB && bo.Op == token.ADD && bo.X == ssa.Value(phi) {
+				if k, isK := an.IntConst(bo.Y); isK && k == 1 {
+					sawInc = true
+				}
+			}
+		}
+		if sawConst && sawInc {
+			return true, "loop variable phi(k, v+1): one increment per iteration, single definition"
+		}
+	}
 	bo, isb := v.(*ssa.BinOp)
 	if !isb || bo.Op != token.ADD {
 		return false, "not an addition (" + an.Path(v) + ")"
@@ -498,8 +517,8 @@ func checkC09(c *Ctx) {
 		if !isOnClose(ci.Common()) {
 			continue
 		}
-		arg := an.Strip(ci.Common().Args[0])
-		R.Check(arg == an.Strip(idArg), "C09-onclose", fname(m.teardown)+": onCloseHandler(id)", c.pos(ci),
+		arg := an.StripX(ci.Common().Args[0])
+		R.Check(arg == an.StripX(idArg), "C09-onclose", fname(m.teardown)+": onCloseHandler(id)", c.pos(ci),
 			"argument is a per-iteration copy of the very value given to newConn", "OnClose receives "+an.Path(ci.Common().Args[0])+", not the ID given to newConn for this connection")
 	}
 	R.Floor("C09-onclose", 1)
@@ -527,10 +546,73 @@ func isClosedAtom(v ssa.Value) bool {
 			}
 		}
 	}
+	// a one-line predicate of the module wrapping one of the tests above: func isClosedErr(err error) bool { return <test>(err) }
+	if f := cc.StaticCallee(); f != nil && an.InModule(f) && len(f.Params) == 1 && len(cc.Args) == 1 && f.Signature.Results().Len() == 1 {
+		rets := an.Returns(f)
+		if len(rets) >= 1 {
+			all := true
+			for _, ret := range rets {
+				res := an.ReturnResults(ret)[0]
+				if v, isC := an.BoolConst(res); isC && !v {
+					continue // e.g. `if err == nil { return false }`
+				}
+				inner, ok := res.(*ssa.Call)
+				if !ok || inner.Common().StaticCallee() == f || !isClosedAtom(inner) {
+					all = false
+				}
+			}
+			return all
+		}
+	}
 	return false
 }
 
 func isListenerClose(cc *ssa.CallCommon) bool { return isInvoke(cc, "net", "Listener", "Close") }
+
+// reserveHelper recognises `if !s.reserve() { return }` in Run: the Add sits in
+// a helper that runs only as a synchronous part of Run, returns a bool, performs
+// exactly one connWg.Add(1) on every path to `return true` and none on a path to
+// `return false`, and Run branches on the result. Returns the call in Run and
+// the successors for "reserved" / "not reserved".
+func (c *Ctx) reserveHelper(add ssa.CallInstruction, m *serverModel) (call *ssa.Call, reserved, not *ssa.BasicBlock, why string) {
+	h := add.Parent()
+	if ok, w := syncOnlyFrom(h, m.run, c.shippedFuncs(G), 0); !ok {
+		return nil, nil, nil, fname(h) + " does not run only as part of Run: " + w
+	}
+	if h.Signature.Results().Len() != 1 || !types.Identical(h.Signature.Results().At(0).Type(), types.Typ[types.Bool]) {
+		return nil, nil, nil, fname(h) + " does not return a bool"
+	}
+	cnt := an.CountEvents(h, an.Entry(h), isInstr(add), nil)
+	for _, ret := range an.Returns(h) {
+		v, isC := an.BoolConst(an.ReturnResults(ret)[0])
+		if !isC {
+			return nil, nil, nil, fname(h) + " returns a non-constant"
+		}
+		if v && cnt[ret] != an.C1 || !v && cnt[ret] != an.C0 {
+			return nil, nil, nil, sprintf("%s returns %v on a path with %s Add calls", fname(h), v, cnt[ret])
+		}
+	}
+	for _, ci := range an.Calls(m.run) {
+		hc, ok := ci.(*ssa.Call)
+		if !ok || an.StaticCallee(hc.Common()) != h {
+			continue
+		}
+		if call != nil {
+			return nil, nil, nil, fname(h) + " is called more than once in Run"
+		}
+		call = hc
+	}
+	if call == nil {
+		return nil, nil, nil, fname(h) + " is not called directly by Run"
+	}
+	for _, x := range ifsOn(m.run, func(v ssa.Value) bool { return v == ssa.Value(call) }) {
+		if x.If.Block() != call.Block() {
+			continue
+		}
+		return call, succOn(x.If, !x.Neg), succOn(x.If, x.Neg), ""
+	}
+	return nil, nil, nil, "Run does not branch on the result of " + fname(h)
+}
 
 func checkC12(c *Ctx) {
 	R := c.R
@@ -626,28 +708,45 @@ func checkC12(c *Ctx) {
 	for _, ci := range adds {
 		key := fname(ci.Parent()) + ": connWg.Add(1) paired with the connection goroutine"
 		k, isK := an.IntConst(ci.Common().Args[1])
-		if ci.Parent() != m.run || !isK || k != 1 || !isCall(ci) {
+		// where, in Run, the place is reserved: the Add itself, or the call of a helper that
+		// reports (bool) whether it reserved a place
+		var at ssa.Instruction = ci // the reserving instruction in Run
+		held := an.After(ci)        // from here on the place is held
+		var notHeld *ssa.BasicBlock  // where the helper reported "not reserved"
+		if ci.Parent() != m.run && isK && k == 1 && isCall(ci) {
+			if hc, t, f, why := c.reserveHelper(ci, m); hc != nil {
+				at, held, notHeld = hc, an.Point{B: t, I: 0}, f
+			} else {
+				R.Fail("C12-done-last", key, c.pos(ci), "connWg.Add is not a plain Add(1) in Run, nor in a helper of Run that reports whether it reserved a place: "+why)
+				continue
+			}
+		} else if ci.Parent() != m.run || !isK || k != 1 || !isCall(ci) {
 			R.Fail("C12-done-last", key, c.pos(ci), "connWg.Add is not a plain Add(1) in Run")
 			continue
 		}
 		ok := true
 		why := ""
 		// every go of a connection goroutine is preceded by the Add
-		if w := an.Search(an.Point{B: head, I: 0}, isInstr(m.connGo), isInstr(ci)); w != nil && head != nil {
+		if w := an.Search(an.Point{B: head, I: 0}, isInstr(m.connGo), isInstr(at)); w != nil && head != nil {
 			ok, why = false, "a connection goroutine can be started without a preceding connWg.Add(1): "+c.trail(w)
 		}
+		if notHeld != nil {
+			if w := an.Search(an.Point{B: notHeld, I: 0}, isInstr(m.connGo), isInstr(at)); w != nil {
+				ok, why = false, "a connection goroutine can be started although no place was reserved: "+c.trail(w)
+			}
+		}
 		// between Add and go there is no Done
-		if w := an.Search(an.After(ci), isRel, or(isInstr(m.connGo))); w != nil {
+		if w := an.Search(held, isRel, or(isInstr(m.connGo))); w != nil {
 			// a release is fine only if after it the go is not reachable without a new Add
 			for _, r := range releases {
-				if w2 := an.Search(an.After(r), isInstr(m.connGo), isInstr(ci)); w2 != nil {
+				if w2 := an.Search(an.After(r), isInstr(m.connGo), isInstr(at)); w2 != nil {
 					ok, why = false, "after giving the place back (connWg.Done) the connection goroutine can still be started: "+c.trail(w2)
 				}
 			}
 		}
 		// after an Add, every path reaches the go or a release before returning or iterating again
 		leak := or(an.IsReturn, func(in ssa.Instruction) bool { return head != nil && in.Block() == head && an.PointOf(in).I == 0 })
-		if w := an.Search(an.After(ci), leak, or(isInstr(m.connGo), isRel)); w != nil {
+		if w := an.Search(held, leak, or(isInstr(m.connGo), isRel)); w != nil {
 			ok, why = false, "a path after connWg.Add(1) neither starts the connection goroutine nor gives the place back: Stop would wait forever: "+c.trail(w)
 		}
 		R.Check(ok, "C12-done-last", key, c.pos(ci), sprintf("every connection goroutine start is preceded by this Add(1); %d release site(s) give the place back on paths that start no goroutine", len(releases)), why)
@@ -659,7 +758,7 @@ func checkC12(c *Ctx) {
 	if len(adds) == 1 {
 		add := adds[0]
 		key := "(*Server).Run: connWg.Add ordered with Stop's Wait"
-		runLS := an.LockSets(m.run, nil)
+		runLS := an.LockSets(add.Parent(), nil) // Run, or the reserving helper: the critical section is where the Add is
 		stopLS := an.LockSets(m.stop, nil)
 		var wait ssa.CallInstruction
 		var cancel ssa.CallInstruction
@@ -711,13 +810,14 @@ func checkC12(c *Ctx) {
 		R.Fatal("Run: no net.Listen* / tls.Listen call found")
 	} else {
 		// point where listen succeeded: the false successor of `err != nil` on Listen's error
+		errInRun, _, whyNot := c.listenErrIn(m.run, listen)
+		if errInRun == nil {
+			R.Unknown("C12-listener-release", "(*Server).Run: listen error test", c.pos(listen), "cannot relate the listen's error to Run: "+whyNot)
+			errInRun = func(ssa.Value) bool { return false }
+		}
 		okIfs := ifsOn(m.run, func(v ssa.Value) bool {
 			x, _, ok := an.NilCheck(v)
-			if !ok {
-				return false
-			}
-			ex, ok := an.Strip(x).(*ssa.Extract)
-			return ok && ex.Tuple == ssa.Value(listen) && ex.Index == 1
+			return ok && errInRun(x)
 		})
 		// the test whose err == nil side leads to the accept loop
 		var sel []condIf
